@@ -71,8 +71,12 @@ pub fn v_str_from(s: &String, from: usize) -> (r: String)
     requires from <= str_byte_len(s@),
     ensures r@ == str_from_spec(s@, from as nat),
 { unimplemented!() }
-/// `s.strip_prefix(p).unwrap_or(&s).to_string()` is handled through this pair
+/// `x.strip_prefix(p).unwrap_or(&y).to_string()`
 pub uninterp spec fn strip_prefix_spec(s: Seq<char>, p: Seq<char>) -> Option<Seq<char>>;
+#[verifier::external_body]
+pub fn v_strip_prefix_or(x: &String, p: &str, y: &String) -> (r: String)
+    ensures r@ == (match strip_prefix_spec(x@, p@) { Some(t) => t, None => y@ }),
+{ unimplemented!() }
 
 /// N11: `HashMap<String, usize>` as a finite map from token text to receipt number (T5)
 #[verifier::external_body]
